@@ -250,9 +250,11 @@ func (e *Exec) store(addr Value, v Value) {
 		}
 		if e.globalCells != nil {
 			if name, ok := e.globalCells[a]; ok {
+				where := name + " written in " + e.curFnName()
 				e.res.mu.Lock()
-				e.res.GlobalWrites[name+" in "+e.curFnName()]++
+				e.res.GlobalWrites[where]++
 				e.res.mu.Unlock()
+				e.globalWriteSeen = append(e.globalWriteSeen, where)
 			}
 		}
 		switch x := v.(type) {
